@@ -18,7 +18,7 @@ RULE = (
     "distinct = distinct cell tuples / distinct sequence shapes"
 )
 ASSUMPTIONS = ["EMPTY_ACK_DELAY is 0.1 s (read from the library at run time)", "simulated one-way latency 1 ms"]
-REQUIRED_MONITORS = {"table_cell": 500, "table_cell_busy_peer": 100, "mid_boundary": 100, "con_never_to_multicast": 500, "sequence": 50, "noninterference": 50}
+REQUIRED_MONITORS = {"table_cell": 500, "table_cell_busy_peer": 100, "mid_boundary": 100, "duplicate_delivery": 100, "con_never_to_multicast": 500, "sequence": 50, "noninterference": 50}
 EXHAUSTIVE = {"single_message_table": "types x codes x token known/unknown x unicast/multicast x delays x No-Response x result class as enumerated by cells()"}
 
 CON, NON, ACK, RST = 0, 1, 2, 3
@@ -277,7 +277,7 @@ def cell_key(cell):
     return "%s-%s%s" % ("CON NON ACK RST".split()[typ], cls, extra)
 
 
-def run_cell(cell, seed, rep, case, busy=False, mid=0x7001):
+def run_cell(cell, seed, rep, case, busy=False, mid=0x7001, dup_at=()):
     from harness import scenario, simnet, refcodec as rc
     import asyncio
     from aiocoap.numbers.constants import TransportTuning
@@ -297,6 +297,10 @@ def run_cell(cell, seed, rep, case, busy=False, mid=0x7001):
         dst = simnet.addr(MC, 5683) if mc else node.S
         t0 = loop.time()
         node.peer.send(dst, msg)
+        # the network (or a retransmitting peer) delivers the very same datagram again: "exactly once under its
+        # message ID" is a statement about distinct datagrams, repetitions of one already sent are C04's subject
+        for dt in dup_at:
+            loop.call_at(t0 + dt, node.peer.send, dst, msg)
         await asyncio.sleep(3.0)
         box.update(node=node, msg=msg, t_arrival=t0 + 0.001, req_done=node.requests[0].response.done())
         await node.stop()
@@ -434,6 +438,22 @@ def run_shard(shard, rep, only=None):
                 continue
             run_cell(cell, shard["seed"] * 7919 + 90000 + k, rep, case, mid=mid)
             rep.monitor("mid_boundary")
+    # ---- request cells delivered more than once: before the handler is done, around EMPTY_ACK_DELAY, after the response ----
+    dup_cells = [c for c in allc if c[0] in (CON, NON) and 1 <= c[1] <= 7 and not c[3] and c[5] in (None, 26) and c[6] == 69]
+    k = 0
+    for cell in dup_cells:
+        d = cell[4]
+        for dups in ((0.01,), (0.0,), (0.03, 0.06), (ead - 0.001,), (ead + 0.05,), (d + 0.5,), (0.02, ead + 0.02, d + 0.2)):
+            k += 1
+            if k % of != idx:
+                continue
+            if tier == "quick" and (k // of) % 2 != 0:
+                continue
+            case = ["dup", k]
+            if only is not None and only != case:
+                continue
+            run_cell(cell, shard["seed"] * 7919 + 130000 + k, rep, case, dup_at=dups)
+            rep.monitor("duplicate_delivery")
     # ---- the same table against a node that has an unacknowledged CON in flight to the peer and one held back ----
     busy_cells = [c for c in allc if expected(c, ead) not in (None, "mc-non") and not c[3] and (c[4] in (0.0, 1.0))]
     for i, cell in enumerate(busy_cells):
